@@ -88,6 +88,15 @@ func TestC07E2(t *testing.T) { runE2(t, "C07") }
 func TestC08E2(t *testing.T) { runE2(t, "C08") }
 func TestC13(t *testing.T) { runE2(t, "C13") }
 
+func TestC03L(t *testing.T) { rapid.Check(t, func(rt *rapid.T) { runE2L(rt, "C03", []string{"map"}) }) }
+func TestC04L(t *testing.T) { rapid.Check(t, func(rt *rapid.T) { runE2L(rt, "C04", []string{"mapof"}) }) }
+func TestC02L(t *testing.T) {
+	rapid.Check(t, func(rt *rapid.T) { runE2L(rt, "C02", []string{"cache", "cacheof"}) })
+}
+func TestC08L(t *testing.T) {
+	rapid.Check(t, func(rt *rapid.T) { runE2L(rt, "C08", []string{"map", "mapof", "cache", "cacheof"}) })
+}
+
 func TestC16(t *testing.T) {
 	rapid.Check(t, func(rt *rapid.T) {
 		p := genC16(rt)
@@ -205,6 +214,8 @@ func replayOtherV(v *Violation) *Violation {
 		return replayC11(v)
 	case "E1-C12":
 		return replayC12(v)
+	case "E2L":
+		return replayLong(v)
 	}
 	return nil
 }
